@@ -1162,7 +1162,16 @@ def replay(ctx, data):
             print("read_and_validate_parameters ->", T.show(r)[:1500])
             cls = inp.get("class")
             if cls == "valid":
-                oracle_valid(ctx, defs, files, [(order, r)])
+                # the stored order first, then (file sets of <= 4: all) other orders, as the check does:
+                # an order dependence needs two orders to show
+                results = [(tuple(order), r)]
+                others = list(itertools.permutations(range(len(files)))) if len(files) <= 4 else \
+                    [tuple(range(len(files))), tuple(reversed(range(len(files))))]
+                for o in others:
+                    if tuple(o) != tuple(order):
+                        p2, _ = sc.write([files[i][2] for i in o])
+                        results.append((tuple(o), T.real_intake_paths(p2)))
+                oracle_valid(ctx, defs, files, results)
                 for v in ctx.violations:
                     print("oracle:", v["signature"], "-", v["what"])
                 return 1 if ctx.violations else 0
